@@ -3,6 +3,7 @@
 //! usage: vharness <family> --model <rfsm_model> --out <report.json> [--tier quick|thorough]
 //!                 [--seed N] [--replay file]
 mod c19;
+mod c12;
 mod sysvars;
 mod content;
 mod dump;
@@ -90,6 +91,10 @@ fn main() {
         println!("{}", serde_json::json!({"xml": c.xml, "events": c.events, "single": c.single, "child": c.child}));
         return;
     }
+    if args.family == "c12-one" {
+        c12::main_one(&args.extra);
+        return;
+    }
     let mut model = proto::Model::spawn(&args.model);
     let mut rep = match args.family.as_str() {
         "c19" => c19::run(&args, &mut model),
@@ -108,6 +113,18 @@ fn main() {
             // vdm-driven trace correspondence of executable_content.rs, then the real data models
             let mut r = int::run(&args, &mut model, "C08");
             content::run_real(&args, &mut r);
+            r
+        }
+        "c12" => {
+            // interpreter model vs implementation on documents full of evaluation errors (no panic,
+            // no hang, same observations), then the scenario table on the real data models
+            let scenario_replay = args.replay.as_ref().map(|p| c12::is_scenario_replay(p)).unwrap_or(false);
+            let mut r = if scenario_replay {
+                report::Report::new("c12", "scenario replay")
+            } else {
+                int::run(&args, &mut model, "C12")
+            };
+            c12::run_real(&args, &mut r);
             r
         }
         "c20" => http::run(&args, &mut model),
